@@ -7,7 +7,7 @@ meta = json.load(open(os.path.join(md, "meta.json")))
 def sh(cmd, **kw):
     return subprocess.run(cmd, shell=True, cwd=wt, stdout=subprocess.PIPE, stderr=subprocess.STDOUT, **kw)
 def clean():
-    sh("git checkout -- . && rm -f tests/verif_demo.rs")
+    sh("git checkout -- . && git clean -fdq -e out && rm -f tests/verif_demo.rs")
 gui = "mstsc-rs" in json.dumps(meta)
 def demo_cmd():
     if os.path.exists(os.path.join(md, "demo.rs")):
